@@ -151,6 +151,18 @@ CHECKS["C16"] = dict(
          "against a brute-force enumeration of (d_A, d_B, u) inside the truncation region; initial values against their documented definition.",
     technique="Lean 4 proofs of the combination rules (parameter conversions, discretisation, censoring, logit order) + mpmath reference pushed through the model and compared with the real tables",
     ref="§8 C16", note="Special-function accuracy is assumed and sampled; the Hendrix joint law is checked by brute force, not by a theorem.")
+CHECKS["C12"] = dict(
+    text="Theorems: with frequency 0 nothing is set up and the loop issues no save event; the directory exists iff f > 0 and config.yaml iff in "
+         "addition solver+problem are reconstructible; every save event of a solve() call is label-consistent (label = iteration counter of the "
+         "snapshot, snapshot = the iterate reached at that moment) and in-loop saves happen only at multiples of f; the call's last iteration is "
+         "always saved; one save is skipped iff the step is not newer than the latest committed step, otherwise it is committed and exactly the m "
+         "newest steps remain (the new one among them); after any call at most m steps are retained and each is either pre-existing or one of the "
+         "call's save events. Partial: Orbax/OS are assumed to implement this store (skip rule, max_to_keep, atomic commit) - observed on every "
+         "run. Tie: op sequences (f, m, sync/async, several solve calls, restore into same/new directory with overrides, failing restores) on all "
+         "solvers, problems with/without configuration: sorted listings, config.yaml, iteration and values stored in every retained step vs the "
+         "store model fed by the model loop's save events.",
+    technique="Lean 4 proofs about the loop's save events and the store model + differential check of directory listings and per-step contents of real checkpoint directories",
+    ref="§8 C12", note="Orbax CheckpointManager and the filesystem are the runtime; the model of their behaviour is validated by the listing comparison, not proved.")
 PENDING = {}
 
 
